@@ -175,3 +175,143 @@ Proof.
   - apply parse_serialize_exact; auto.
   - rewrite dump_load. reflexivity.
 Qed.
+
+(* ------------------------------------------------------------------------------------------ *)
+(* the finite-automaton encoding                                                               *)
+(* ------------------------------------------------------------------------------------------ *)
+Lemma map_opt_exists : forall (A B : Type) (f : A -> option B) (P : A -> B -> Prop) l,
+  (forall x, In x l -> exists y, f x = Some y /\ P x y) ->
+  exists ys, map_opt f l = Some ys /\ Forall2 P l ys.
+Proof.
+  induction l as [|x l IH]; simpl; intro H; [exists []; auto|].
+  destruct (H x (or_introl eq_refl)) as (y & E & Py). rewrite E.
+  destruct IH as (ys & E' & F); [intros; apply H; auto|]. rewrite E'. exists (y :: ys). auto.
+Qed.
+
+Lemma Forall2_in_l : forall (A B : Type) (P : A -> B -> Prop) l ys x, Forall2 P l ys -> In x l -> exists y, In y ys /\ P x y.
+Proof. induction 1; simpl; intros I; [tauto|]. destruct I as [I|I]; [subst; eauto|]. destruct (IHForall2 I) as (y' & ? & ?); eauto. Qed.
+
+Lemma Forall2_in_r : forall (A B : Type) (P : A -> B -> Prop) l ys y, Forall2 P l ys -> In y ys -> exists x, In x l /\ P x y.
+Proof. induction 1; simpl; intros I; [tauto|]. destruct I as [I|I]; [subst; eauto|]. destruct (IHForall2 I) as (x' & ? & ?); eauto. Qed.
+
+Lemma nullary_ch : forall t, nullary t = true -> t_ch t = [].
+Proof. intros [ch s p]. unfold nullary. simpl. destruct ch; [auto|discriminate]. Qed.
+
+Section FA.
+  Variable d : desc.
+  Hypothesis Hfa : is_fa d = true.
+  Variable pick : list N -> N.
+  Hypothesis pick_in : forall l, l <> [] -> In (pick l) l.
+
+  Let sd := number_all beq (fa_state_keys d).
+  Let yd := number_all beq (fa_sym_keys d).
+  Let L := mkFaLoaded
+      (mkNfa (map (fwd beq sd) (d_finals d))
+             (map (fun t => (fwd beq sd (t_par t), fwd beq yd (t_sym t))) (filter nullary (d_trans d)))
+             (flat_map (fun t => match t_ch t with
+                                 | [c] => [(fwd beq sd c, fwd beq yd (t_sym t), fwd beq sd (t_par t))]
+                                 | _ => []
+                                 end) (d_trans d)))
+      sd yd.
+
+  Lemma load_fa_eq : load_fa d = Some L.
+  Proof. unfold load_fa. rewrite Hfa. reflexivity. Qed.
+
+  Lemma key_state : forall t q, In t (d_trans d) -> In q (t_ch t) \/ q = t_par t -> In q (fa_state_keys d).
+  Proof.
+    intros t q Ht Hq. unfold fa_state_keys. apply in_or_app. right. apply in_flat_map. exists t. split; auto.
+    apply in_or_app. destruct Hq; [left; auto | right; subst; simpl; auto].
+  Qed.
+  Lemma key_sym : forall t, In t (d_trans d) -> In (t_sym t) (fa_sym_keys d).
+  Proof. intros. unfold fa_sym_keys. apply in_or_app. right. apply in_map; auto. Qed.
+
+  Lemma bs : forall q, In q (fa_state_keys d) -> back (fwd beq sd q) sd = Some q.
+  Proof. intros. apply (number_all_back _ beq beq_eq); auto. Qed.
+  Lemma by_ : forall y, In y (fa_sym_keys d) -> back (fwd beq yd y) yd = Some y.
+  Proof. intros. apply (number_all_back _ beq beq_eq); auto. Qed.
+
+  Lemma edges_dump : forall l, incl l (d_trans d) -> forallb unary_or_nullary l = true ->
+    map_opt (dump_edge L)
+      (flat_map (fun t => match t_ch t with
+                          | [c] => [(fwd beq sd c, fwd beq yd (t_sym t), fwd beq sd (t_par t))]
+                          | _ => []
+                          end) l) = Some (filter (fun t => negb (nullary t)) l).
+  Proof.
+    induction l as [|t l IH]; intros I U; [reflexivity|].
+    cbn [forallb] in U. apply andb_true_iff in U as [U1 U2].
+    assert (It : In t (d_trans d)) by (apply I; left; auto).
+    assert (Il : incl l (d_trans d)) by (intros x Hx; apply I; right; auto).
+    cbn [flat_map filter]. destruct t as [ch sy pa]. unfold unary_or_nullary in U1. cbn [t_ch] in *.
+    destruct ch as [|c [|c' ch]]; try discriminate.
+    - cbn [app nullary is_nil t_ch negb]. apply IH; auto.
+    - cbn [app map_opt]. unfold dump_edge at 1. cbn [fst snd fl_states fl_syms L t_sym t_par].
+      rewrite (bs c) by (eapply key_state; eauto; left; simpl; auto).
+      rewrite (by_ sy) by (apply (key_sym _ It)).
+      rewrite (bs pa) by (eapply key_state; eauto).
+      rewrite IH by auto. reflexivity.
+  Qed.
+
+  Definition start_ok (s : N) (t : trans) : Prop :=
+    In t (d_trans d) /\ nullary t = true /\ fwd beq sd (t_par t) = s.
+
+  Lemma starts_dump : exists sts, map_opt (dump_start pick L) (start_states (fl_aut L)) = Some sts /\
+    Forall2 start_ok (start_states (fl_aut L)) sts.
+  Proof.
+    apply map_opt_exists. intros s Hs. unfold start_states in Hs. apply nodup_In in Hs.
+    assert (NE : syms_of (fl_aut L) s <> []).
+    { apply in_map_iff in Hs as ([s' y] & E & I). simpl in E. subst s'.
+      unfold syms_of. intro Z.
+      assert (X : In y (map snd (filter (fun p => fst p =? s) (f_starts (fl_aut L))))).
+      { apply in_map_iff. exists (s, y). split; auto. apply filter_In. split; auto. simpl. apply N.eqb_refl. }
+      rewrite Z in X. destruct X. }
+    pose proof (pick_in _ NE) as P.
+    remember (pick (syms_of (fl_aut L) s)) as y eqn:Ey.
+    unfold syms_of in P. apply in_map_iff in P as ([s' y'] & E & I). simpl in E. subst y'.
+    apply filter_In in I as [I Es]. simpl in Es. apply N.eqb_eq in Es. subst s'.
+    cbn [fl_aut L f_starts] in I. apply in_map_iff in I as (t & Et & It).
+    apply filter_In in It as [It Nt]. inversion Et as [[E1 E2]].
+    exists t. split.
+    - unfold dump_start. rewrite E1, <- Ey, <- E2, <- E1. cbn [fl_syms fl_states L].
+      rewrite (by_ (t_sym t)) by (apply key_sym; auto).
+      rewrite (bs (t_par t)) by (eapply key_state; eauto).
+      destruct t as [ch sy pa]. apply nullary_ch in Nt. simpl in Nt. subst ch. reflexivity.
+    - repeat split; auto.
+  Qed.
+
+  (* loading a word-automaton shaped description and dumping it: the final states, the unary rules,
+     the start states and one nullary rule per start state come back, whatever symbol the dump picks *)
+  Theorem dump_load_fa : exists l fr, load_fa d = Some l /\ dump_fa pick l = Some fr /\
+    fa_same d (dumped_desc fr) = true.
+  Proof.
+    destruct starts_dump as (sts & Es & Fs).
+    exists L, (d_finals d, sts ++ filter (fun t => negb (nullary t)) (d_trans d)).
+    split; [apply load_fa_eq|]. split.
+    - unfold dump_fa. rewrite Es. cbn [fl_aut fl_states L f_finals f_edges].
+      unfold sd at 1 2. rewrite (map_opt_back _ beq beq_eq).
+      2:{ intros q Hq. unfold fa_state_keys. apply in_or_app; left; auto. }
+      fold sd. fold yd. fold L. rewrite edges_dump; [reflexivity | apply incl_refl | exact Hfa].
+    - apply fa_same_spec. cbn [dumped_desc d_finals d_trans fst snd]. repeat split.
+      + auto. + auto.
+      + intro I. apply in_or_app. right. apply filter_In. rewrite H. auto.
+      + intro I. apply in_app_or in I as [I|I].
+        * destruct (Forall2_in_r _ _ _ _ _ _ Fs I) as (s & _ & _ & Nt & _). congruence.
+        * apply filter_In in I. tauto.
+      + intros t Nt I. apply in_app_or in I as [I|I].
+        * destruct (Forall2_in_r _ _ _ _ _ _ Fs I) as (s & _ & It & _). auto.
+        * apply filter_In in I as [_ X]. rewrite Nt in X. discriminate.
+      + intros t Nt It.
+        assert (Hs : In (fwd beq sd (t_par t)) (start_states (fl_aut L))).
+        { unfold start_states. apply nodup_In. cbn [fl_aut L f_starts]. rewrite map_map. simpl.
+          apply in_map_iff. exists t. split; auto. apply filter_In; auto. }
+        destruct (Forall2_in_l _ _ _ _ _ _ Fs Hs) as (t' & I' & It' & Nt' & E').
+        exists t'. split; auto. split; [apply in_or_app; left; auto|].
+        apply (number_all_inj _ beq beq_eq (fa_state_keys d)).
+        * apply (key_state t'); auto.
+        * apply (key_state t); auto.
+        * exact E'.
+  Qed.
+End FA.
+
+(* a description with a rule of arity >= 2 is refused ("Not a finite automaton") *)
+Theorem load_fa_guard : forall d, is_fa d = false -> load_fa d = None.
+Proof. intros d H. unfold load_fa. rewrite H. reflexivity. Qed.
